@@ -24,7 +24,7 @@ def check(pid, technique, text, note, ref=None, thorough=True):
 check(
     "C09",
     "exhaustive token-sequence enumeration + Hypothesis text + file mutation fuzzing against the reconstruction/tiling identity",
-    "Generated-input search: every string of <=5 (quick) / <=6 (thorough) tokens of a 19-token lexical alphabet is enumerated, then Hypothesis strings over alphabet and corpus lines, arbitrary unicode, and repository files whole/truncated/line-mutated; for each the concatenation identity and the line tiling are checked exactly. Within the enumerated bound absence of a counterexample is established; beyond it this is sampling.",
+    "Generated-input search: every string of <=5 (quick) / <=6 (thorough) tokens of a 19-token lexical alphabet and every string of <=4 / <=5 tokens of a second 17-token alphabet of bracketed expression statements is enumerated, then Hypothesis strings over alphabet and corpus lines, arbitrary unicode, and repository files whole/truncated/line-mutated; for each the concatenation identity and the line tiling are checked exactly. Within the enumerated bound absence of a counterexample is established; beyond it this is sampling.",
     "Trusts CPython str operations and that the scanner is a pure function of its argument; inputs longer than the generated sizes and alphabets outside the stated one are only sampled.",
 )
 
@@ -43,20 +43,20 @@ check(
 
 check(
     "C03",
-    "exhaustive hop-sequence enumeration (all 155 sequences of length<=3 per generated interface) + Hypothesis RuleBasedStateMachine over hop histories; invariant-after-every-step and commutation oracle",
+    "exhaustive hop-sequence enumeration (all 155 sequences of length<=3 per generated interface) + Hypothesis RuleBasedStateMachine over hop histories (docstring hop in three configurations: strip / keep the Defaults-to sentence / library defaults); invariant-after-every-step and commutation oracle",
     "Generated-input search over interfaces of the common domain and over conversion histories: the invariant 'names, order, types, defaults equal the start interface' is evaluated after every hop of every sequence of length<=3 (complete per interface) and of machine-drawn histories up to 5 hops, which shrink as one value; commutation is compared per multiset of hops.",
     "Relaxations are decided on (start parameter, history) only: the documented '=None' of the function hop, P13 (argparse zero values / single-member Literal) and P14 (Optional widening after a function hop); names and order are never relaxed.",
 )
 
 check(
     "C04",
-    "Hypothesis-generated interfaces x emitter/style matrix; differential oracle against CPython (compile/exec, inspect.signature, argparse) plus unparse/re-parse identity",
+    "Hypothesis-generated interfaces x emitter/style matrix (incl. class with the function body as __call__, which is executed); differential oracle against CPython (compile/exec, inspect.signature, argparse) plus unparse/re-parse identity",
     "Generated-input search over the executable domain: every emitted class / function / argparse function is compiled, executed in a scratch namespace and interrogated with __annotations__, inspect.signature and a real ArgumentParser (option per parameter, type conversion, choices, default, required, help, parse_args with only required options).",
     "exec of emitted code is confined to our own literal vocabulary; BaseModel is stubbed with object; P13's argparse classes (bare bool, single-member Literal) are relaxed narrowly.",
 )
 check(
     "C05",
-    "Hypothesis-generated table descriptions x variant/style/force_pk_id matrix; inverse-pair oracle per variant plus cross-variant agreement and primary-key count on the re-read AST",
+    "Hypothesis-generated table descriptions x variant/style/force_pk_id matrix; inverse-pair oracle per variant plus cross-variant agreement, Table -> class conversion agreement and primary-key count on the re-read AST",
     "Generated-input search over SQL-representable interfaces; each of the three emissions is rendered, re-read and parsed, compared column by column (names, order, types incl. Enum members as a set, nullability, defaults, descriptions with PK/FK markers) and with each other; exactly one primary_key=True per emission.",
     "force_pk_id=True with a user column literally named `id` is treated as a generator-made collision and skipped (counted).",
 )
@@ -69,7 +69,7 @@ check(
 
 check(
     "C10",
-    "metamorphic search over the environment: Hypothesis-generated inputs x call scripts (orders, repetitions, interleavings, leaking calls first) x PYTHONHASHSEED values, each in a fresh interpreter; digest-equality oracle",
+    "metamorphic search over the environment: Hypothesis-generated inputs x call scripts (orders, repetitions, interleavings, leaking calls first) x PYTHONHASHSEED values, each in a fresh interpreter; digest-equality oracle (inputs include LIVE imported function/class objects)",
     "Generated-input search where the varied dimension is the interpreter: for each (api, input) the bytes produced must be identical across all sampled hash seeds, all positions in all call scripts and repetitions. Covers function/class/argparse/json-schema/sqlalchemy/docstring parsers and emitters (incl. Table and hybrid variants), gen with import inference, infer_imports/optimise_imports, doctrans, sync, openapi emit, get_module_contents.",
     "Hash seeds and scripts are sampled; key order inside one parameter's dict is not treated as output (parameter order is).",
 )
@@ -103,7 +103,7 @@ check(
 
 check(
     "C14",
-    "Hypothesis over four input families (grammar docstrings, hand-shaped defs, emitter output in 8 formats, token soups); shape-validator oracle plus signature-coverage oracle with the ast signature as reference",
+    "Hypothesis over six input families (grammar docstrings, hand-shaped defs, emitter output in 8 formats, token soups, LIVE imported function/class objects, hand-shaped JSON-schemas with $ref/anyOf/nullable/format/items); shape-validator oracle plus signature-coverage oracle with the ast signature as reference",
     "Generated-input search over parser inputs; every returned interface description is validated against the documented shape (keys, name constraints, uniqueness, key set of each entry, `typ` parses as an expression, string descriptions, single return_type entry), and for function parsers every positional-or-keyword / keyword-only parameter of the signature must appear exactly once.",
     "Exceptions are acceptable outcomes except on input the emitters themselves produced. Relaxed: P30 (ill-formed text: empty names / unparseable types), P35 (*args, **kwargs, positional-only), P29 (sqlalchemy None / server_default keys), P20/P49 (footer garbage in typ), P22.",
 )
@@ -112,12 +112,12 @@ check(
     "C07",
     "Hypothesis-generated Python modules x histories of 1..3 doctrans runs (API and CLI entry); erased-AST equality, comment-token sequence, protected-line subsequence and fault-atomicity oracles against the ORIGINAL file",
     "Generated-input search over programs: after every run of a generated history the file must compile, its AST with docstrings/annotations/type comments erased must equal the original's (defaults, *args/**kwargs, kw-only marker, decorators, bases, statements, nested defs), the COMMENT tokens must be the same sequence and every line outside def headers and docstrings byte-identical; when doctrans raises (also on generated syntax-error files) the bytes must be unchanged.",
-    "The four open shapes P19 (async docstring), P26 (comment in multi-line header), P27 (one-line def), P28 (raw docstring) are generated in a separate layer under their own labels and relax only the clause each corrupts.",
+    "The five open shapes P19 (async docstring), P26 (comment in multi-line header), P27 (one-line def), P28 (raw docstring), P68 (decorated def with a trailing header comment) are generated in a separate layer under their own labels and relax only the clause each corrupts.",
 )
 
 check(
     "C13",
-    "Hypothesis-generated module pairs with dotted paths valid by construction; masked-AST equality oracle (every node but the selected location identical), annotation oracle, default-alignment oracle, raise-atomicity",
+    "Hypothesis-generated module pairs with dotted paths valid by construction, driven through the function and through the sync_properties command line; masked-AST equality oracle (every node but the selected location identical), annotation oracle, default-alignment oracle, raise-atomicity",
     "Generated-input search over input/output modules and all valid (input-param, output-param) pairs, wrap templates and --input-eval: the output file must parse, the selected location must carry the input's name and (wrapped) annotation or the Literal of the evaluated value, ast.dump of everything else must be identical (covers every other definition, parameter, default and statement, and the alignment of defaults), and the input file must be untouched; when cdd rejects a path both files must be byte-identical. A metamorphic layer checks that ONE call with two (input, output) pairs equals two consecutive single-pair calls; same-name attribute->parameter pairs (the natural use) are built on purpose.",
     "The selected parameter's own default may take the value of a same-named input class attribute (designed behaviour), nothing else may change; param->attr pairs are outside the generated domain.",
 )
@@ -131,9 +131,9 @@ check(
 
 check(
     "C19",
-    "Hypothesis-generated input modules x parse kind x 8 emit kinds x name templates x import inference x prepend x existing-output, through the gen CLI entry; compile, names == __all__ == templated names, per-symbol re-parse, import-closure and no-clobber oracles",
+    "Hypothesis-generated input modules / JSON-schema files / directories x parse kind x 8 emit kinds x name templates x import inference x prepend x existing-output, through the gen CLI entry; compile, names == __all__ == templated names, per-symbol re-parse, import-closure and no-clobber oracles",
     "Generated-input search over the gen configuration matrix and multi-symbol inputs (also modules mixing classes, plain functions and argparse functions under --parse infer): the output must compile, define exactly the templated names and list exactly those in __all__, each generated symbol parsed back must have the interface of its source entry (C02/C03 normalisations), every typing name used must be imported when inference is on, __future__ imports first; on an existing output file gen must refuse and leave bytes and mtime untouched.",
-    "P17d (sqlalchemy kinds with a non-identity template define the un-templated name) relaxes only the defined-names / re-parse clauses for those cells; SQLAlchemy-class, Table and JSON-schema *inputs* are not generated (P37).",
+    "P17d (sqlalchemy kinds with a non-identity template define the un-templated name) relaxes only the defined-names / re-parse clauses for those cells; JSON-schema files and directories of files ARE generated as inputs; SQLAlchemy-class and Table *inputs* are not (P37).",
 )
 
 check(
@@ -145,7 +145,7 @@ check(
 
 check(
     "C16",
-    "Hypothesis-generated SQLAlchemy models x CRUD subsets x prefixes x app names; $ref-closure resolver, path-template/parameter consistency, operations == requested CRUD and schema == model oracles on both OpenAPI generators",
+    "Hypothesis-generated SQLAlchemy models (documented and undocumented columns) x CRUD subsets x upsert histories into an existing routes file x API / command-line entry x prefixes x app names; $ref-closure resolver, path-template/parameter consistency, operations == requested CRUD and schema == model oracles on both OpenAPI generators",
     "Generated-input search over models and route configurations: routes are generated, written and fed back to openapi_bulk, and cdd.compound.openapi.emit.openapi is run on the same models as tuples; each document must be JSON-serialisable, every $ref must resolve inside the document, every {param} of a path template must be declared in: path, the operations present must be exactly the requested ones (C->post on the collection, R->get and D->delete on the item) and the component schema of each model must list exactly its columns with required == non-nullable.",
     "openapi_bulk is strict only on the slice 'table name title-cases to the class name, explicit/inferable PK, no ForeignKey' (P16, P32, P33, P57 cover the rest); emit.openapi has no open class.",
 )
